@@ -1,6 +1,8 @@
 package rules
 
 import (
+	"go/token"
+	"go/types"
 	"strings"
 
 	. "abverif/internal/engine"
@@ -181,5 +183,264 @@ func (c *Ctx) verdictNotAnError(rule string) {
 	}
 	if n == 0 {
 		r.Unknown(rule, "", "decisions", "-", "no error-valued credential decision found in the login handlers")
+	}
+}
+
+// ctxUserFirst: while an event handler runs, the user a flow is acting on is
+// the one the firing handler attached to the request (CTXKeyUser); the
+// session's own identity may be a different account (somebody already logged
+// in on this browser) or none at all. CurrentUser and LoadCurrentUser must
+// therefore answer with the attached user whenever there is one, before they
+// look at the session: lock's and confirm's vetoes, remember's token issue
+// and revocation all ask CurrentUser whom they are deciding about.
+func (c *Ctx) ctxUserFirst(rule string) {
+	r := c.R
+	for _, fname := range []string{fnCurrentUser, fnLoadCurrentUser} {
+		fn := c.P.Func(fname)
+		name := FuncName(fn)
+		// the attached user
+		var attached []ssa.Value
+		for _, call := range CallsTo(fn, fnCtxValue) {
+			if k, isC := ConstStr(ctxKeyArg(call)); isC && k == "user" {
+				attached = append(attached, call.Value())
+			}
+		}
+		if len(attached) == 0 {
+			r.Bad(rule, name, "ctx[user] consulted", c.P.Pos(fn.Pos()), "the user attached to the request is never consulted: handlers that ask whom a flow is acting on get the session's identity instead")
+			continue
+		}
+		isAttached := func(v ssa.Value) bool {
+			for {
+				switch x := v.(type) {
+				case *ssa.TypeAssert:
+					v = x.X
+					continue
+				case *ssa.Extract:
+					v = x.Tuple
+					continue
+				case *ssa.ChangeInterface:
+					v = x.X
+					continue
+				}
+				break
+			}
+			for _, a := range attached {
+				if a == v {
+					return true
+				}
+			}
+			return false
+		}
+		absent := func(f Fact) bool {
+			rel := f.Rel()
+			if rel.Op == token.EQL && IsNilConst(rel.Y) && isAttached(rel.X) {
+				return true
+			}
+			// comma-ok assertion failed
+			if rel.B != nil && !rel.Pol {
+				if e, ok := rel.B.(*ssa.Extract); ok && e.Index == 1 {
+					if ta, ok := e.Tuple.(*ssa.TypeAssert); ok && isAttached(ta.X) {
+						return true
+					}
+				}
+			}
+			return false
+		}
+		n := 0
+		for _, call := range Calls(fn) {
+			cn := Callee(call)
+			if cn != fnCurrentUserID && cn != fnLoadCurrentUserID && cn != fnLoad && cn != fnGetSession {
+				g := StaticCallee(call)
+				if g == nil || !c.inRepo(g) || !c.isUserType(firstResultType(g)) {
+					continue
+				}
+			}
+			n++
+			r.Check(HasFact(FactsAtInstr(call.(ssa.Instruction)), absent), rule, name, "session consulted only without an attached user", posf(c, call), "ctx[user] absent here", "the session identity ("+cn+") is consulted although a user may be attached to the request: whenever the two differ, the vetoes and the remember hooks decide about the wrong account")
+		}
+		if n == 0 {
+			r.Unknown(rule, name, "session look-up", "-", "no look-up of the session identity found")
+		}
+		// and the attached user is what is returned
+		okRet := false
+		for _, b := range fn.Blocks {
+			if ret, ok := b.Instrs[len(b.Instrs)-1].(*ssa.Return); ok && len(ret.Results) == 2 && isAttached(ret.Results[0]) && IsNilConst(ret.Results[1]) {
+				okRet = true
+			}
+		}
+		r.Check(okRet, rule, name, "attached user returned", c.P.Pos(fn.Pos()), "the attached user is the answer", "no return hands back the user attached to the request")
+	}
+}
+
+func firstResultType(f *ssa.Function) types.Type {
+	res := f.Signature.Results()
+	if res.Len() == 0 {
+		return types.Typ[types.Invalid]
+	}
+	return res.At(0).Type()
+}
+
+// moduleCopied: every Authboss instance initialises its own copy of a
+// registered module. A module object holds the *Authboss it was initialised
+// with; if instances shared the registered object, the routes of an earlier
+// instance would act on the storage, token generator and configuration of the
+// instance initialised last (a recovery token of one realm accepted in the
+// other). Decided on loadModule: the value whose Init is called and that is
+// stored in loadedModules derives from reflect.New only, never from the
+// address of the registered value.
+func (c *Ctx) moduleCopied(rule string) {
+	r := c.R
+	fn := c.P.FuncOpt("(*ab.Authboss).loadModule")
+	if fn == nil {
+		// find by role: the function calling Moduler.Init
+		for _, f := range c.P.Funcs {
+			for _, call := range Calls(f) {
+				if call.Common().IsInvoke() && call.Common().Method.Name() == "Init" && strings.HasSuffix(call.Common().Value.Type().String(), ".Moduler") {
+					fn = f
+				}
+			}
+		}
+	}
+	if fn == nil {
+		r.Unknown(rule, "ab", "module loader", "-", "the function that initialises registered modules was not found")
+		return
+	}
+	name := FuncName(fn)
+	n := 0
+	for _, call := range Calls(fn) {
+		cc := call.Common()
+		if !cc.IsInvoke() || cc.Method.Name() != "Init" {
+			continue
+		}
+		n++
+		bad := ""
+		seen := map[ssa.Value]bool{}
+		nNew := 0
+		var walk func(v ssa.Value, d int)
+		walk = func(v ssa.Value, d int) {
+			if v == nil || seen[v] || d > 12 || bad != "" {
+				return
+			}
+			seen[v] = true
+			switch x := v.(type) {
+			case *ssa.TypeAssert:
+				walk(x.X, d+1)
+			case *ssa.Extract:
+				walk(x.Tuple, d+1)
+			case *ssa.Phi:
+				for _, e := range x.Edges {
+					walk(e, d+1)
+				}
+			case *ssa.Call:
+				switch Callee(x) {
+				case "reflect.New":
+					nNew++
+				case "(reflect.Value).Interface", "(reflect.Value).Elem", "reflect.Indirect":
+					walk(x.Call.Args[0], d+1)
+				case "(reflect.Value).Addr", "reflect.ValueOf":
+					bad = Callee(x) + " at " + c.P.InstrPos(x)
+				default:
+					bad = "result of " + Callee(x)
+				}
+			case *ssa.UnOp:
+				if a, ok := x.X.(*ssa.Alloc); ok && a.Referrers() != nil {
+					for _, ref := range *a.Referrers() {
+						if st, ok := ref.(*ssa.Store); ok && st.Addr == ssa.Value(a) {
+							walk(st.Val, d+1)
+						}
+					}
+					return
+				}
+				bad = "a loaded value " + SafeString(x)
+			default:
+				bad = SafeString(v)
+			}
+		}
+		walk(cc.Value, 0)
+		r.Check(bad == "" && nNew > 0, rule, name, "Init on a fresh copy", posf(c, call), "the module initialised is a new value made with reflect.New", "the module that is initialised and kept is not (only) a fresh copy of the registered one ("+bad+"): Authboss instances share module objects, and each Init overwrites the instance the earlier routes act on")
+	}
+	if n == 0 {
+		r.Unknown(rule, name, "Init", "-", "no Init call found in the module loader")
+	}
+}
+
+// mwOutermost: on every route of every module that is wrapped by the
+// authentication middleware, that middleware is the outermost wrapper that can
+// answer the request itself (the error handler wrapper only converts errors):
+// a request that does not meet the requirements gets exactly the configured
+// refusal.
+func (c *Ctx) mwOutermost(rule string) {
+	r := c.R
+	n := 0
+	for _, rt := range c.Routes() {
+		for _, alt := range rt.Alts {
+			iMW := -1
+			for i, w := range alt.Wrappers {
+				if w.Kind == "MW2" {
+					iMW = i
+					break
+				}
+			}
+			if iMW < 0 {
+				continue
+			}
+			n++
+			bad := ""
+			for i := 0; i < iMW; i++ {
+				if k := alt.Wrappers[i].Kind; k != "ErrorHandler.Wrap" {
+					bad = k
+				}
+			}
+			r.Check(bad == "", rule, FuncName(rt.In), rt.Method+" "+rt.Path+"{"+strings.Join(alt.Cond, ",")+"}", posf(c, rt.Call), "the authentication middleware is the first gate", "a wrapper that answers requests itself ("+bad+") sits outside the authentication middleware on this route: an unauthenticated or half-authenticated request is answered by it instead of the configured 404 / 401 / login redirect")
+		}
+	}
+	if n < 10 {
+		r.Unknown(rule, "", "census", "-", sprintf("only %d route alternatives behind the authentication middleware found (confirmed by hand: more than 30)", n))
+	}
+}
+
+// halfAuthUpgradeGated: deleting the half-auth mark turns a remembered
+// session into a fully authenticated one, which is what the 2FA settings
+// routes require. It is therefore gated like the issue of a session: behind a
+// credential, and — when that credential is a first factor — behind the
+// not-handled outcome of FireBefore(EventAuthHijack), so that the password
+// step of a two-factor account does not upgrade the session on its own.
+func (c *Ctx) halfAuthUpgradeGated(rule string) {
+	r := c.R
+	half := c.P.ConstString("", "SessionHalfAuthKey")
+	hij := c.Event("EventAuthHijack")
+	n := 0
+	for _, fn := range c.P.Funcs {
+		name := FuncName(fn)
+		pk := pkgOf(fn)
+		if pk == "ab/logout" || pk == "ab/expire" || pk == "ab" {
+			continue // removal of the whole session, not an upgrade
+		}
+		for _, op := range c.StateOps(fn) {
+			if op.Op != "del" || op.Store != "session" || op.Key != half {
+				continue
+			}
+			n++
+			pos := posf(c, op.Call)
+			creds := c.CredsAt(op.Call.(ssa.Instruction))
+			if len(creds) == 0 {
+				r.Bad(rule, name, "DelSession("+half+")", pos, "the half-auth mark is removed (the session becomes fully authenticated) without a dominating credential check")
+				continue
+			}
+			if !c.isPrimaryCred(creds) {
+				r.Ok(rule, name, "DelSession("+half+")", pos, "behind "+credKinds(creds))
+				continue
+			}
+			gated := false
+			for _, g := range c.gateFires(op.Call.(ssa.Instruction)) {
+				if g.Event == hij {
+					gated = true
+				}
+			}
+			r.Check(gated, rule, name, "DelSession("+half+")", pos, "behind "+credKinds(creds)+" and the not-handled outcome of FireBefore(EventAuthHijack)", "the half-auth mark is removed on the strength of a first factor alone, before (or regardless of) the second-factor hand-over: a remembered session of a two-factor account becomes fully authenticated by the password step and passes RequireFullAuth on the 2FA settings routes")
+		}
+	}
+	if n < 3 {
+		r.Unknown(rule, "", "census", "-", sprintf("only %d removals of the half-auth mark found in the login flows (confirmed by hand: 6)", n))
 	}
 }
